@@ -96,7 +96,58 @@ func canonicalise(prog *ssa.Program) {
 			}
 			b.Instrs = kept
 		}
+		branchOnNegation(fn)
 		threadBoolPhis(fn)
+	}
+}
+
+// branchOnNegation: "if !x" normally compiles to a branch on x with the targets exchanged, but go/ssa keeps the
+// negation as an instruction where the condition is a case of a tagless switch ("switch { case !x: ... }") or
+// was computed into a variable.  A branch on "!x" becomes a branch on x with its successors exchanged; the
+// negation is dropped when nothing else uses it.  (Successor order is the only thing that changes: predecessor
+// lists, phi edges and dominators are unaffected.)
+func branchOnNegation(fn *ssa.Function) {
+	dropRef := func(v ssa.Value, user ssa.Instruction) {
+		if refs := v.Referrers(); refs != nil {
+			for i, r := range *refs {
+				if r == user {
+					*refs = append((*refs)[:i], (*refs)[i+1:]...)
+					break
+				}
+			}
+		}
+	}
+	for _, b := range fn.Blocks {
+		if len(b.Instrs) == 0 || len(b.Succs) != 2 {
+			continue
+		}
+		iff, ok := b.Instrs[len(b.Instrs)-1].(*ssa.If)
+		if !ok {
+			continue
+		}
+		for {
+			un, isNot := iff.Cond.(*ssa.UnOp)
+			if !isNot || un.Op != token.NOT {
+				break
+			}
+			iff.Cond = un.X
+			b.Succs[0], b.Succs[1] = b.Succs[1], b.Succs[0]
+			dropRef(un, iff)
+			if refs := un.X.Referrers(); refs != nil {
+				*refs = append(*refs, iff)
+			}
+			if ur := un.Referrers(); ur != nil && len(*ur) == 0 {
+				// the negation has no use left: remove it from its block
+				dropRef(un.X, un)
+				ub := un.Block()
+				for i, ins := range ub.Instrs {
+					if ins == ssa.Instruction(un) {
+						ub.Instrs = append(ub.Instrs[:i], ub.Instrs[i+1:]...)
+						break
+					}
+				}
+			}
+		}
 	}
 }
 
